@@ -552,7 +552,8 @@ def conn_menus():
             "record_size_limit", "minKeySize", "maxKeySize", "psk_modes",
             "certificate_compression_send",
             "certificate_compression_receive", "use_heartbeat_extension",
-            "ticketKeys", "usePaddingExtension", "defaultCurve")
+            "ticketKeys", "ticketCipher", "ticketLifetime",
+            "usePaddingExtension", "defaultCurve")
     out = []
     for attr, vals in M:
         if attr in keep:
